@@ -32,7 +32,10 @@ def tonumpy(poly: PolyLike) -> numpy.ndarray:
         raise numpoly.FeatureNotSupported(
             "only constant polynomials can be converted to array."
         )
-    idx = numpy.argwhere(numpy.all(poly.exponents == 0, -1)).item()
-    if poly.size:
-        return numpy.array(poly.coefficients[idx])
-    return numpy.array([])
+    if not poly.size:
+        return numpy.array([])
+    idx = numpy.argwhere(numpy.all(poly.exponents == 0, -1))
+    if not idx.size:
+        # constant without a stored constant term: every stored term is zero
+        return numpy.zeros(poly.shape, dtype=poly.dtype)
+    return numpy.array(poly.coefficients[idx.item()])
